@@ -83,6 +83,8 @@ func runC05(p *Prog, r *Report) {
 	c5Callback(p, r)
 	c5Cache(p, r)
 	c5Discovery(p, r, auth)
+	c5RequestPassThrough(p, r, auth)
+	r.Floor("R5.8-request-pass-through", 7)
 	// R5.5 sibling authorizer: the batch package has its own copy of the decision loop; the decision-table rules of C02
 	// (R2.1 no early exit, R2.2 classification, R2.3 decision, R2.6 fresh accumulators) are applied to that copy here,
 	// under their own names
@@ -1065,4 +1067,171 @@ func unconditionalInYield(b *ssa.BasicBlock) bool {
 		}
 	}
 	return true
+}
+
+// R5.8 the request goes in as given: batch.Authorize enumerates exactly the candidate lists of the request and evaluates
+// against exactly the entity store it was handed — (a) every variable item appended to the evaluator's list carries the
+// key and the value list of one entry of request.Variables, untouched (a filtered or de-duplicated copy changes the number
+// of callbacks); (b) the evaluation environment's Entities is the `entities` argument itself, replaced by an empty store
+// only when it is nil (narrowing it to one implementation silently empties every other store); (c) principal, action,
+// resource and context of the environment are the same-named request parts.
+func c5RequestPassThrough(p *Prog, r *Report, auth *ssa.Function) {
+	const rule = "R5.8-request-pass-through"
+	q := fnQual(auth)
+	var reqPar, entPar *ssa.Parameter
+	for _, pr := range auth.Params {
+		if typeIs(pr.Type(), pBatch, "Request") {
+			reqPar = pr
+		}
+		if typeIs(pr.Type(), pTypes, "EntityGetter") {
+			entPar = pr
+		}
+	}
+	if reqPar == nil || entPar == nil {
+		r.Anchor(rule, "batch.Authorize parameters (request, entities)")
+		return
+	}
+	// the request may be spilled into a local: fields are read through FieldAddr on that cell or Field on the value
+	isReqField := func(v ssa.Value, name string) bool {
+		switch x := v.(type) {
+		case *ssa.Field:
+			if st := structOf(x.X.Type()); st != nil && st.Field(x.Field).Name() == name {
+				for _, l := range leavesOf(x.X) {
+					if l == ssa.Value(reqPar) {
+						return true
+					}
+				}
+			}
+		case *ssa.UnOp:
+			if fa, ok := x.X.(*ssa.FieldAddr); ok && x.Op == token.MUL {
+				if _, f := fieldAddrName(fa); f == name {
+					for _, l := range leavesOf(fa.X) {
+						if l == ssa.Value(reqPar) {
+							return true
+						}
+					}
+				}
+			}
+		}
+		return false
+	}
+	// (a) variable items
+	nItems := 0
+	forEachInstr(auth, func(in ssa.Instruction) {
+		c, ok := in.(*ssa.Call)
+		if !ok || !isBuiltin(&c.Call, "append") {
+			return
+		}
+		sl, ok := c.Type().Underlying().(*types.Slice)
+		if !ok || !typeIs(sl.Elem(), pBatch, "variableItem") {
+			return
+		}
+		nItems++
+		fields, _, ok := appendedStructFields(c)
+		if !ok {
+			r.Undec(rule, q+":variable-item", p.pos(c.Pos()), "the appended variable item is not a struct literal the rule can read")
+			return
+		}
+		fromEntry := func(v ssa.Value, idx int) bool {
+			ex, ok := stripConv(v).(*ssa.Extract)
+			if !ok || ex.Index != idx {
+				return false
+			}
+			nx, ok := ex.Tuple.(*ssa.Next)
+			if !ok {
+				return false
+			}
+			rg, ok := nx.Iter.(*ssa.Range)
+			return ok && isReqField(rg.X, "Variables")
+		}
+		r.Check(fields["Key"] != nil && fromEntry(fields["Key"], 1), rule, q+":variable-item:key", p.pos(c.Pos()), "the item's key is the key of an entry of request.Variables",
+			"a variable item's Key is not the key of the request.Variables entry being visited")
+		r.Check(fields["Values"] != nil && fromEntry(fields["Values"], 2), rule, q+":variable-item:values", p.pos(c.Pos()), "the item's value list is the entry's list itself",
+			"a variable item's Values is not the candidate list of the request.Variables entry itself (it is computed from it: filtered, de-duplicated, truncated …): the enumeration then no longer visits one request per element of the Cartesian product of the lists the caller gave")
+	})
+	r.Check(nItems == 1, rule, q+":variable-items", p.pos(auth.Pos()), "one place builds the variable list", "expected exactly one append of a variable item in batch.Authorize, found "+itoa(nItems))
+	// (b), (c) the environment
+	want := map[string]string{"Principal": "Principal", "Action": "Action", "Resource": "Resource", "Context": "Context"}
+	seen := map[string]bool{}
+	forEachInstr(auth, func(in ssa.Instruction) {
+		st, ok := in.(*ssa.Store)
+		if !ok {
+			return
+		}
+		fa, ok := st.Addr.(*ssa.FieldAddr)
+		if !ok {
+			return
+		}
+		pp, ok := fa.X.Type().Underlying().(*types.Pointer)
+		if !ok || !typeIs(pp.Elem(), pEval, "Env") {
+			return
+		}
+		_, fname := fieldAddrName(fa)
+		if src, ok := want[fname]; ok {
+			seen[fname] = true
+			r.Check(isReqField(stripConv(st.Val), src), rule, q+":env."+fname, p.pos(st.Pos()), "env."+fname+" is request."+src, "the evaluation environment's "+fname+" is not the request's "+src)
+			return
+		}
+		if fname != "Entities" {
+			return
+		}
+		seen["Entities"] = true
+		good := true
+		why := ""
+		var visit func(v ssa.Value, d int, underNil bool)
+		visit = func(v ssa.Value, d int, underNil bool) {
+			if d > 5 {
+				good, why = false, "too deep"
+				return
+			}
+			switch x := v.(type) {
+			case *ssa.Parameter:
+				if x != entPar {
+					good, why = false, "another parameter"
+				}
+			case *ssa.Phi:
+				for i, e := range x.Edges {
+					// the alternative to the parameter is admissible only on the `entities == nil` edge
+					pred := x.Block().Preds[i]
+					gs := guardsAt(pred)
+					if iff, ok := lastInstr(pred).(*ssa.If); ok && pred.Succs[0] != pred.Succs[1] {
+						gs = append(gs, Guard{Cond: iff.Cond, Pol: pred.Succs[0] == x.Block(), If: iff})
+					}
+					isNilEdge := false
+					for _, g := range gs {
+						if nn, k := nilTest(g, entPar); k && !nn {
+							isNilEdge = true
+						}
+					}
+					visit(e, d+1, isNilEdge)
+				}
+			case *ssa.MakeInterface:
+				if !underNil {
+					good, why = false, "a substitute store on a path where the argument is not nil"
+					return
+				}
+				if _, isK := x.X.(*ssa.Const); !isK {
+					if _, isMk := x.X.(*ssa.MakeMap); !isMk {
+						good, why = false, "the substitute for a nil argument is not an empty store"
+					}
+				}
+			case *ssa.Const:
+				if !underNil {
+					good, why = false, "a constant store on a path where the argument is not nil"
+				}
+			case *ssa.ChangeInterface:
+				visit(x.X, d+1, underNil)
+			default:
+				good, why = false, "derived from "+v.Name()+" ("+strings.TrimPrefix(strings.SplitN(v.String(), "(", 2)[0], "*")+")"
+			}
+		}
+		visit(st.Val, 0, false)
+		r.Check(good, rule, q+":env.Entities", p.pos(st.Pos()), "env.Entities is the entities argument (an empty store only when it is nil)",
+			"the evaluation environment's Entities is not the `entities` argument itself ("+why+"): policies are then evaluated against a different store than the one the caller supplied and cedar.Authorize would use")
+	})
+	for _, f := range []string{"Entities", "Principal", "Action", "Resource", "Context"} {
+		if !seen[f] {
+			r.Viol(rule, q+":env."+f, p.pos(auth.Pos()), "batch.Authorize never sets the evaluation environment's "+f)
+		}
+	}
 }
